@@ -351,19 +351,6 @@ func repeat(c byte, n int) string {
 	return string(b)
 }
 
-func allIn(s, set string) bool {
-	for i := 0; i < len(s); i++ {
-		ok := false
-		for j := 0; j < len(set); j++ {
-			ok = ok || s[i] == set[j]
-		}
-		if !ok {
-			return false
-		}
-	}
-	return true
-}
-
 func TestLibITF(t *testing.T) {
 	rng := rand.New(rand.NewSource(19))
 	w, r := liboned.NewITFWriter(), liboned.NewITFReader()
@@ -412,5 +399,52 @@ func TestLibCodabar(t *testing.T) {
 		expectRead(t, r, m2, nil, s[1:len(s)-1], gozxing.BarcodeFormat_CODABAR)
 		m3, _ := Codabar(s, 3)
 		expectRead(t, r, m3, keep, s, gozxing.BarcodeFormat_CODABAR)
+	}
+}
+
+// TestLibKnownIssues only LOGS (never fails on) library behaviour that is
+// known to deviate, so that the evidence stays reproducible:
+//
+//	(a) the UPC-E writer given 7 digits computes the check digit on the
+//	    unexpanded number;
+//	(b) the UPC-E reader needs a wider right quiet zone than the other
+//	    UPC/EAN readers and than the UPC-E writer's default margin provides;
+//	(c) MultiFormatUPCEANReader without a POSSIBLE_FORMATS hint reports a
+//	    UPC-A symbol as EAN_13 with a leading 0 (upstream ZXing reports UPC_A;
+//	    pinned by the library's own tests).
+func TestLibKnownIssues(t *testing.T) {
+	w := liboned.NewUPCEWriter()
+	for _, u7 := range []string{"0425261", "0100003", "0123455"} {
+		want := u7 + string(rune('0'+Mod10Check(UPCEExpand(u7))))
+		naive := u7 + string(rune('0'+Mod10Check(u7)))
+		bm, err := w.Encode(u7, gozxing.BarcodeFormat_UPC_E, 0, 0, nil)
+		if err != nil {
+			t.Logf("(a) UPC-E writer(%s): %v", u7, err)
+			continue
+		}
+		lm := libModules(t, w, u7, gozxing.BarcodeFormat_UPC_E)
+		t.Logf("(a) UPC-E writer(%s): draws correct %s: %v; draws %s (check digit of the unexpanded number): %v; total width %d",
+			u7, want, equalMods(lm, UPCE(want)), naive, equalMods(lm, UPCE(naive)), bm.GetWidth())
+	}
+	minRight := func(r gozxing.Reader, m []bool) int {
+		for q := 0; q <= 30; q++ {
+			if _, err := libReadQuiet(r, m, 20, q, nil); err == nil {
+				return q
+			}
+		}
+		return -1
+	}
+	t.Logf("(b) minimal right quiet zone in modules at scale 2: EAN-13 %d, EAN-8 %d, UPC-A %d, UPC-E %d",
+		minRight(liboned.NewEAN13Reader(), EAN13("5901234123457")),
+		minRight(liboned.NewEAN8Reader(), EAN8("96385074")),
+		minRight(liboned.NewUPCAReader(), UPCA("036000291452")),
+		minRight(liboned.NewUPCEReader(), UPCE("04252614")))
+	if bm, err := w.Encode("04252614", gozxing.BarcodeFormat_UPC_E, 0, 0, nil); err == nil {
+		bmp, _ := gozxing.NewBinaryBitmapFromImage(bm)
+		_, err := liboned.NewUPCEReader().Decode(bmp, nil)
+		t.Logf("(b) UPC-E reader on the UPC-E writer's default output (width %d): err=%v", bm.GetWidth(), err)
+	}
+	if res, err := libRead(liboned.NewMultiFormatUPCEANReader(nil), UPCA("036000291452"), nil); err == nil {
+		t.Logf("(c) MultiFormatUPCEANReader(nil) on UPC-A 036000291452: %q %v", res.GetText(), res.GetBarcodeFormat())
 	}
 }
